@@ -89,6 +89,13 @@ var zzOdds = []zzOdd{
 	{Name: "zero-portion allotment", Script: "vars {\nmonetary $m\n}\nsend $m (\n  source = @a\n  destination = {\n    0% to @x\n    100% to @y\n  }\n)\n", SymMon: map[string]string{"m": "USD/2"}, SymBal: [][2]string{{"a", "USD/2"}}},
 	{Name: "source allotment below 100%", Script: "vars {\nmonetary $m\n}\nsend $m (\n  source = {\n    1/2 from @a\n    1/3 from @b\n  }\n  destination = @x\n)\n", SymMon: map[string]string{"m": "USD/2"}, SymBal: [][2]string{{"a", "USD/2"}, {"b", "USD/2"}}},
 	{Name: "world as destination and source", Script: "vars {\nmonetary $m\n}\nsend $m (\n  source = @world\n  destination = @world\n)\n", SymMon: map[string]string{"m": "USD/2"}},
+	{Name: "transaction metadata from monetary arithmetic", Script: "vars {\nmonetary $x\nmonetary $y\n}\nset_tx_meta(\"net\", $x - $y)\nsend [USD/2 1] (\n  source = @world\n  destination = @b\n)\n", SymMon: map[string]string{"x": "USD/2", "y": "USD/2"}},
+	{Name: "account metadata from monetary arithmetic", Script: "vars {\nmonetary $x\nmonetary $y\n}\nset_account_meta(@b, \"delta\", $x - $y)\nsend [USD/2 1] (\n  source = @world\n  destination = @b\n)\n", SymMon: map[string]string{"x": "USD/2", "y": "USD/2"}},
+	{Name: "metadata from literal arithmetic going negative", Script: "set_tx_meta(\"d\", [COIN 5] - [COIN 7])\nset_account_meta(@b, \"s\", [COIN 5] + [COIN 7])\nsend [COIN 1] (\n  source = @world\n  destination = @b\n)\n"},
+	{Name: "metadata with an asset the lexer accepts but the asset pattern rejects", Script: "set_tx_meta(\"price\", [9A 1])\nsend [COIN 1] (\n  source = @world\n  destination = @b\n)\n"},
+	{Name: "metadata of every value type", Script: "vars {\nportion $p\naccount $u\nasset $v\nstring $s\nnumber $n\n}\nset_tx_meta(\"a\", $p)\nset_tx_meta(\"b\", $u)\nset_tx_meta(\"c\", $v)\nset_tx_meta(\"d\", $s)\nset_tx_meta(\"e\", $n - 5)\nset_tx_meta(\"f\", 1/3)\nset_account_meta($u, \"g\", @world)\nsend [COIN 1] (\n  source = @world\n  destination = $u\n)\n", Vars: map[string]string{"p": "12.5%", "u": "users:1", "v": "EUR/2", "s": "hello world", "n": "3"}},
+	{Name: "print of arithmetic", Script: "vars {\nmonetary $x\nmonetary $y\n}\nprint $x - $y\nprint 1 - 2\nsend [USD/2 1] (\n  source = @world\n  destination = @b\n)\n", SymMon: map[string]string{"x": "USD/2", "y": "USD/2"}},
+	{Name: "same metadata key set twice", Script: "vars {\nmonetary $x\n}\nset_tx_meta(\"k\", $x)\nset_tx_meta(\"k\", $x + $x)\nset_account_meta(@b, \"k\", $x)\nset_account_meta(@b, \"k\", 7)\nsend $x (\n  source = @world\n  destination = @b\n)\n", SymMon: map[string]string{"x": "USD/2"}},
 	{Name: "deep nesting", Script: "vars {\nmonetary $m\nmonetary $c\n}\nsend $m (\n  source = {\n    max $c from {\n      @a\n      max $c from {\n        @b\n        @c\n      }\n    }\n    @world\n  }\n  destination = {\n    max $c to {\n      1/2 to @x\n      1/2 kept\n    }\n    remaining to @y\n  }\n)\n", SymMon: map[string]string{"m": "USD/2", "c": "USD/2"}, SymBal: [][2]string{{"a", "USD/2"}, {"b", "USD/2"}, {"c", "USD/2"}}},
 }
 
